@@ -1,4 +1,5 @@
 import RsMatterVerif.Lemmas.Transport
+import RsMatterVerif.Lemmas.TxWire
 import RsMatterVerif.Model.TxGuard
 /-!
 # C15 — a nonce is never used for two different messages
@@ -164,8 +165,11 @@ theorem new_counter_above_all_earlier (s : Sess) (hinv : SlotsBelow s s.ctr) (op
     List.Pairwise (fun a b => b.retransmission = false → a.ctr < b.ctr) (runS s ops).2 :=
   (runS_facts ops s hinv).2.2
 
-/-- **Nonce uniqueness at the transport level**: two wire messages of a session with the same counter
-⇒ the later one is a retransmission. -/
+/-- Two outputs of `Session::pre_send` with the same counter ⇒ the later one went through a slot whose
+pending entry remembered that counter (`retransmission` is exactly the flag `ctr.is_some()` of
+`Session::pre_send`). This says NOTHING about the two messages being the same message — `runS`
+accepts `[(7,false,none),(7,true,some 99)]`, see the example below; that the later message IS the
+earlier one is `same_counter_same_message`, over the call sites of `pre_send` and the guard. -/
 theorem same_counter_is_retransmission (s : Sess) (hinv : SlotsBelow s s.ctr) (ops : List SOp) :
     List.Pairwise (fun a b => a.ctr = b.ctr → b.retransmission = true) (runS s ops).2 := by
   refine List.Pairwise.imp ?_ (new_counter_above_all_earlier s hinv ops)
@@ -182,6 +186,169 @@ example :
          .rx { ctr := 1, exch := 5, initiator := false, ack := some 7, reliable := true, newOk := true } 0,
          .tx (some 0) true none none]).2.map (fun o => (o.ctr, o.retransmission, o.ack)))
       = [(7, false, none), (7, true, none), (8, false, some 1)] := by decide
+
+/-- what `same_counter_is_retransmission` does not exclude: `Session::pre_send` itself hands the counter
+of a pending retransmission to ANY message written through that slot — here an unreliable message
+with another acknowledgement field (the shape of the seeded defect "the duplicate's stand-alone
+acknowledgement is written through the exchange slot"). -/
+example :
+    ((runS ({ uid := 0, ctr := 7 } : Sess)
+        [.open_ 5, .tx (some 0) true none none, .tx (some 0) false (some 99) none]).2.map
+          (fun o => (o.ctr, o.retransmission, o.ack))) = [(7, false, none), (7, true, some 99)] := by decide
+
+/-- the `u32` send counter (`Session::get_msg_ctr`: `msg_ctr += 1`, no roll-over handling): the
+model's natural-number counters ARE the `u32` counters as long as the session sends fewer messages
+than are left up to `2^32` — each operation consumes at most one counter -/
+theorem stepS_ctr_le (s : Sess) (op : SOp) : (stepS s op).1.ctr ≤ s.ctr + 1 := by
+  cases op with
+  | tx idx rel ha sai =>
+    have := TxWire.preSend_ctr_le s idx rel ha sai
+    simp only [stepS]
+    split <;> simp_all
+  | rx h now => simp only [stepS]; rw [(postRecv_facts s h now).2]; omega
+  | open_ id =>
+    simp only [stepS]
+    cases ha : s.addExch id .io with
+    | none => simp
+    | some p => obtain ⟨s', i⟩ := p; simp only; rw [(addExch_slot s s' id .io i ha).2.1]; omega
+  | close i => simp only [stepS]; rw [(removeExch_facts s i).2]; omega
+  | free i => simp [stepS]
+
+theorem runS_ctr_le (ops : List SOp) : ∀ (s : Sess), (runS s ops).1.ctr ≤ s.ctr + ops.length := by
+  induction ops with
+  | nil => intro s; simp [runS]
+  | cons op ops ih =>
+    intro s
+    have h1 := stepS_ctr_le s op
+    have h2 := ih (stepS s op).1
+    simp only [runS, List.length_cons]
+    omega
+
+/-- **Counters strictly increase, as `u32` values**: under the explicit hypothesis that the history
+does not exhaust the 32-bit counter (`start + number of operations ≤ 2^32`; the start is below
+`2^28`), every counter on the wire is below `2^32` — no wrap — and a message that is not a
+retransmission carries a `u32` counter strictly greater than every earlier one. Without the
+hypothesis the code wraps (release) or panics (debug): `counter_wraps_without_bound`. -/
+theorem new_counter_above_all_earlier_u32 (s : Sess) (hinv : SlotsBelow s s.ctr) (ops : List SOp)
+    (hwrap : s.ctr + ops.length ≤ 2 ^ 32) :
+    (∀ o ∈ (runS s ops).2, o.ctr < 2 ^ 32) ∧
+    List.Pairwise (fun a b => b.retransmission = false → a.ctr % 2 ^ 32 < b.ctr % 2 ^ 32) (runS s ops).2 := by
+  have hf := runS_facts ops s hinv
+  have hle := runS_ctr_le ops s
+  have hlt : ∀ o ∈ (runS s ops).2, o.ctr < 2 ^ 32 := fun o ho => by have := (hf.2.1 o ho).1; omega
+  refine ⟨hlt, ?_⟩
+  have hpw := hf.2.2
+  rw [List.pairwise_iff_forall_sublist] at hpw ⊢
+  intro a b hab hnew
+  have ha : a ∈ (runS s ops).2 := hab.subset (by simp)
+  have hb : b ∈ (runS s ops).2 := hab.subset (by simp)
+  rw [Nat.mod_eq_of_lt (hlt a ha), Nat.mod_eq_of_lt (hlt b hb)]
+  exact hpw hab hnew
+
+/-- the hypothesis is needed: the model's 2^32-th counter and counter 0 are the same `u32` -/
+theorem counter_wraps_without_bound :
+    let s : Sess := { uid := 0, ctr := 2 ^ 32 - 1 }
+    ((runS s [.tx none false none none, .tx none false none none]).2.map (fun o => o.ctr % 2 ^ 32)) = [2 ^ 32 - 1, 0] := by
+  decide
+
+/-! ## 1b. One counter, one message — over the call sites of `Session::pre_send`
+
+`Model/TxWire.lean`: every message a session hands to the transport, with what its header carries
+(counter, exchange id, initiator flag, reliable flag, acknowledgement field) and the digest of
+(protocol id, opcode, payload), produced by the four call sites of `Session::pre_send`:
+`TxMessage::complete` (+ the retransmission guard), the duplicate's stand-alone acknowledgement in
+`handle_rx_packet` (NO exchange slot), `CloseSession`, and the owed acknowledgement of a dropped
+exchange without pending retransmission in `handle_dropped_exchange`. -/
+
+open TxWire in
+/-- **One counter, one message.** For every history of operations on a session — sends through the
+`Exchange` API with ANY builder outputs (reliable or not, any digests, idempotent or not),
+acknowledgements of duplicates, close-session messages, sweeps of dropped exchanges, received
+messages, exchanges opened / dropped / freed — that starts with nothing pending, respects the
+exchange discipline at every receive (`TxWire.disciplined`) and does not exhaust the `u32` counter
+(`hwrap`): any two messages handed to the transport with the same `u32` counter are the SAME
+message: same exchange id and initiator flag, same reliable flag, same acknowledgement field, same
+content digest. (With the session key and the source node id the counter is the AEAD nonce: no
+nonce protects two different messages.) -/
+theorem same_counter_same_message (s : Sess) (hidle : ∀ j e, s.slot j = some e → e.mrp.retrans = none)
+    (ops : List Op) (hdisc : disciplined dupAckSlot { s := s } ops = true)
+    (hwrap : s.ctr + ops.length ≤ 2 ^ 32) :
+    List.Pairwise (fun a b => a.ctr % 2 ^ 32 = b.ctr % 2 ^ 32 → a = b) (run dupAckSlot { s := s } ops).2 ∧
+    ∀ w ∈ (run dupAckSlot { s := s } ops).2, w.ctr < 2 ^ 32 := by
+  have g := inv_run ops { s := s } [] (inv_init s hidle) hdisc
+  simp only [List.nil_append] at g
+  have hle := run_ctr_le ops { s := s }
+  have hlt : ∀ w ∈ (run dupAckSlot { s := s } ops).2, w.ctr < 2 ^ 32 := fun w hw => by
+    have := g.wlt w hw
+    have h0 : ({ s := s } : St).s.ctr = s.ctr := rfl
+    omega
+  refine ⟨?_, hlt⟩
+  have hpw := g.pw
+  rw [List.pairwise_iff_forall_sublist] at hpw ⊢
+  intro a b hab heq
+  have ha : a ∈ (run dupAckSlot { s := s } ops).2 := hab.subset (by simp)
+  have hb : b ∈ (run dupAckSlot { s := s } ops).2 := hab.subset (by simp)
+  rw [Nat.mod_eq_of_lt (hlt a ha), Nat.mod_eq_of_lt (hlt b hb)] at heq
+  exact hpw hab heq
+
+/-- non-vacuity (all hypotheses hold) on a realistic history: request sent (counter 7), lost, the
+peer's retransmitted earlier message arrives as a duplicate and is acknowledged outside the exchange
+(counter 8), our request is retransmitted (7 again, identical), a non-idempotent rebuild is refused
+(nothing sent), the response arrives with the acknowledgement, the next request takes counter 9. -/
+example :
+    let s : Sess := { uid := 0, ctr := 7, mode := .case }
+    let dup : RxHdr := { ctr := 3, exch := 5, initiator := false, ack := none, reliable := true, newOk := true }
+    let rsp : RxHdr := { ctr := 4, exch := 5, initiator := false, ack := some 7, reliable := true, newOk := true }
+    let ops : List TxWire.Op := [.open_ 5, .complete 0 true 900 none, .dupAck dup none, .complete 0 true 900 none,
+      .complete 0 true 901 none, .rx rsp 0, .complete 0 true 902 none]
+    TxWire.disciplined TxWire.dupAckSlot { s := s } ops = true ∧
+    ((TxWire.run TxWire.dupAckSlot { s := s } ops).2.map (fun w => (w.ctr, w.exch, w.reliable, w.ack, w.digest))) =
+      [(7, 5, true, none, 900), (8, 5, false, some 3, 0), (7, 5, true, none, 900), (9, 5, true, some 4, 902)] := by
+  decide
+
+/-- the duplicate's acknowledgement written THROUGH the exchange the duplicate belongs to (the seeded
+defect: `write_packet(packet, Some(session), Some(exch_index), …)` in `handle_rx_packet`) -/
+def dupAckThroughExchange : Sess → RxHdr → Option Nat := fun s h => s.getExchForRx h
+
+/-- **The call site matters**: with the exchange slot passed to `write_packet`, the stand-alone
+acknowledgement of a duplicate goes out under the counter of the request that exchange is still
+waiting for — one counter, two different messages. `same_counter_same_message` is a theorem about
+the call site the code has (`TxWire.dupAckSlot = none`), not about `Session::pre_send` alone. -/
+theorem dupAck_through_exchange_breaks :
+    let s : Sess := { uid := 0, ctr := 7, mode := .case }
+    let dup : RxHdr := { ctr := 3, exch := 5, initiator := false, ack := none, reliable := true, newOk := true }
+    let ops : List TxWire.Op := [.open_ 5, .complete 0 true 900 none, .dupAck dup none]
+    TxWire.disciplined dupAckThroughExchange { s := s } ops = true ∧
+    ((TxWire.run dupAckThroughExchange { s := s } ops).2.map (fun w => (w.ctr, w.exch, w.reliable, w.ack, w.digest))) =
+      [(7, 5, true, none, 900), (7, 5, false, some 3, 0)] ∧
+    ((TxWire.run TxWire.dupAckSlot { s := s } ops).2.map (fun w => (w.ctr, w.exch, w.reliable, w.ack, w.digest))) =
+      [(7, 5, true, none, 900), (8, 5, false, some 3, 0)] := by
+  intro s dup ops
+  refine ⟨by decide, by decide, by decide⟩
+
+/-- **The guard matters, including the reliable flag** (repo fix
+`C15-retransmission-reliable-flag-differs`): a rebuilt message with the same content but
+`reliable = false` is refused; so is a stand-alone acknowledgement through `Exchange::acknowledge`
+while the exchange waits for the acknowledgement of its own message. -/
+example :
+    let s : Sess := { uid := 0, ctr := 7, mode := .case }
+    ((TxWire.run TxWire.dupAckSlot { s := s }
+        [.open_ 5, .complete 0 true 900 none, .complete 0 false 900 none, .complete 0 false TxWire.ackDigest none,
+         .complete 0 true 900 none]).2.map (fun w => (w.ctr, w.reliable, w.digest))) =
+      [(7, true, 900), (7, true, 900)] := by
+  decide
+
+/-- the discipline hypothesis is needed here as well: a reliable message without acknowledgement on an
+exchange that waits for one replaces the owed acknowledgement; the retransmission then differs in
+its acknowledgement field (same as `ack_changes_without_discipline` on the bare reliability layer) -/
+example :
+    let s : Sess := { uid := 0, ctr := 7, mode := .case }
+    let m1 : RxHdr := { ctr := 3, exch := 5, initiator := true, ack := none, reliable := true, newOk := true }
+    let m2 : RxHdr := { ctr := 4, exch := 5, initiator := true, ack := none, reliable := true, newOk := true }
+    let ops : List TxWire.Op := [.rx m1 0, .complete 0 true 900 none, .rx m2 0, .complete 0 true 900 none]
+    TxWire.disciplined TxWire.dupAckSlot { s := s } ops = false ∧
+    ((TxWire.run TxWire.dupAckSlot { s := s } ops).2.map (fun w => (w.ctr, w.ack))) = [(7, some 3), (7, some 4)] := by
+  decide
 
 /-! ## 2. A retransmission is identical to the original -/
 
